@@ -12,12 +12,12 @@ TConfigs == {}
 TInit == /\ tid \in 1..Len(TraceLines) /\ l = 1 /\ nops = 0 /\ act = [op |-> "init"]
          /\ LET c == TraceLines[tid].cfg
                 e0 == TraceLines[tid].env0
-            IN /\ cfg = [id |-> c.id, expr |-> c.expr, vars |-> SeqToSet(c.vars), ep |-> c.ep]
+            IN /\ cfg = [id |-> c.id, expr |-> c.expr, vars |-> SeqToSet(c.vars), ep |-> c.ep, ge |-> TRUE]
                /\ env = e0
                /\ sub = Fresh(c.expr, e0)
                /\ auto = [last |-> Res(c.expr, e0), must |-> FALSE, may |-> FALSE]
 \* ---- part A ------------------------------------------------------------------------------------------------
-\* outcome records: py = [kind: "value"|"type"|"zerodiv"|"missing"|"other", val], te / ts = [kind: "value"|"default"|"exc", val, eq]
+\* outcome records: py = [kind: "value"|"type"|"zerodiv"|"missing"|"noname"|"other", val], te / ts = [kind: "value"|"default"|"exc", val, eq]
 \* (val = [k |-> "out"] when the value is not representable; eq: equal to Python's value including the type)
 \* (1) the TLA+ transcription agrees with Python wherever it makes a claim (a failure here is a defect of this spec)
 OracleOK(r, py) == \/ r.k = "out"
@@ -25,17 +25,18 @@ OracleOK(r, py) == \/ r.k = "out"
                    \/ r.k \notin {"err", "out"} /\ py.kind = "value" /\ VEq(py.val, r)
 \* (2) template = python whenever python yields a value; default on TypeError / missing variable; ZeroDivisionError is
 \*     an error on both sides; anything else (IndexError, overflow, ...) is outside the statement
-MonitorOK(py, t, excOnMissing) ==
+MonitorOK(py, t, excOnNoName) ==
     CASE py.kind = "value" -> IF py.val.k = "none" THEN t.kind = "default" ELSE t.kind = "value" /\ t.eq
       [] py.kind = "type" -> t.kind = "default"
-      [] py.kind = "missing" -> t.kind = "default" \/ (excOnMissing /\ t.kind = "exc")
+      [] py.kind = "missing" -> t.kind = "default"
+      [] py.kind = "noname" -> t.kind = "default" \/ (excOnNoName /\ t.kind = "exc")
       [] py.kind = "zerodiv" -> t.kind = "exc"
       [] OTHER -> TRUE
 \* (3) template = Eval on the modelled fragment, compared on the logged value itself
-ModelOK(r, t, excOnMissing) ==
+ModelOK(r, t, excOnNoName) ==
     CASE r.k = "out" -> TRUE
       [] r.k = "err" -> IF r.e = "zerodiv" THEN t.kind = "exc"
-                        ELSE IF r.e = "missing" THEN t.kind = "default" \/ (excOnMissing /\ t.kind = "exc")
+                        ELSE IF r.e = "noname" THEN t.kind = "default" \/ (excOnNoName /\ t.kind = "exc")
                         ELSE t.kind = "default"
       [] r.k = "none" -> t.kind = "default"
       [] OTHER -> t.kind = "value" /\ VEq(t.val, r)
